@@ -4,6 +4,9 @@ CONSTANTS
   Window = 2
   MaxFaults = 1
   FaultKinds <- AllKinds
+  MaxPauses = 0
+  TimeoutTicks = 2
+  MaxTicks = 3
   StopRoles <- NoRoles
 INVARIANTS TypeOK Fidelity NoSilentCorruption NoFalseSuccess CleanRunSucceeds
 PROPERTIES Termination
